@@ -62,11 +62,16 @@ def fn_spans(text):
         while k < n:
             c = m[k]
             if c == "{":
-                body = k
+                # a brace inside a requires/ensures clause (`P ==> { &&& .. }`) is not the body: the body's brace
+                # either follows the signature directly or stands first on its line
+                ls = m.rfind("\n", 0, k) + 1
+                if m[ls:k].strip() == "" or not re.search(r"\b(requires|ensures|decreases|recommends)\b", m[mm.end():k]):
+                    body = k
+                    break
+                k = rs.match_close(m, k)
+            elif c == ";":
                 break
-            if c == ";":
-                break
-            if c in "([":
+            elif c in "([":
                 k = rs.match_close(m, k)
             k += 1
         if body is None:
